@@ -633,14 +633,26 @@ def gen_lists(rng, with_roi):
 def gen_op(rng, first=False):
     r = rng.random()
     if first or r < 0.12:
-        return {"op": "construct", "via": pick(rng, ["kwargs", "kwargs", "validate", "json", "zarr2", "zarr3", "instances", "instances"]),
-                "kw": gen_kw(rng, valid=(rng.random() < (0.9 if first else 0.65)))}
+        o = {"op": "construct", "via": pick(rng, ["kwargs", "kwargs", "validate", "json", "zarr2", "zarr3", "instances", "instances"]),
+             "kw": gen_kw(rng, valid=(rng.random() < (0.9 if first else 0.65)))}
+        kw = o["kw"]
+        if (o["via"] == "instances" and isinstance(kw, dict) and isinstance(kw.get("node_props_metadata"), dict)
+                and isinstance(kw.get("edge_props_metadata"), dict) and kw["node_props_metadata"] and rng.random() < 0.5):
+            # one PropMetadata instance passed in both dictionaries
+            ks = [k for k in kw["node_props_metadata"] if rng.random() < 0.7]
+            for k in ks:
+                kw["edge_props_metadata"][k] = copy.deepcopy(kw["node_props_metadata"][k])
+            o["sh"] = ks
+        return o
     i = rng.randrange(1 << 16)
     if r < 0.55:
         f = pick(rng, MD_KEYS + ["axes", "axes", "display_hints", "display_hints", "node_props_metadata", "edge_props_metadata"])
         if rng.random() < 0.04:
             return {"op": "assign", "i": i, "field": "bogus_field", "v": 1, "inst": False}
-        return {"op": "assign", "i": i, "field": f, "v": FIELD_GEN[f](rng, valid=(rng.random() < 0.55)), "inst": rng.random() < 0.4}
+        o = {"op": "assign", "i": i, "field": f, "v": FIELD_GEN[f](rng, valid=(rng.random() < 0.55)), "inst": rng.random() < 0.4}
+        if f in ("node_props_metadata", "edge_props_metadata") and isinstance(o["v"], dict) and o["v"] and rng.random() < 0.4:
+            o["sh"] = [k for k in o["v"] if rng.random() < 0.8]   # effective where the other dictionary holds the key
+        return o
     if r < 0.63:
         return {"op": "copy", "i": i, "how": pick(rng, ["deepcopy", "model_copy", "copy", "model_copy_deep", "zarr_roundtrip", "json_roundtrip"])}
     if r < 0.75:
@@ -784,9 +796,51 @@ def directed_scenarios():
            {"op": "add_props", "i": 1, "props": [{"identifier": "a", "dtype": "f4"}, {"identifier": "a", "dtype": "f8"}], "ctype": "edge", "inst": True}]
 
 
+def sharing_scenarios():
+    """One PropMetadata instance in the node and in the edge dictionary (pydantic keeps instances, deepcopy keeps the
+    sharing inside the copy, add_or_update_props_metadata assigns through the instance)."""
+    pa = {"identifier": "a", "dtype": "int8"}
+    pb = {"identifier": "b", "dtype": "float32", "unit": "u"}
+    kw = {"directed": True, "node_props_metadata": {"a": dict(pa), "b": dict(pb)}, "edge_props_metadata": {"a": dict(pa), "b": dict(pb)}}
+
+    def C(sh, via="instances"):
+        return {"op": "construct", "via": via, "kw": copy.deepcopy(kw), "sh": sh}
+
+    def AP(i, props, ct, inst=False):
+        return {"op": "add_props", "i": i, "props": props, "ctype": ct, "inst": inst}
+    up_a = [{"identifier": "a", "dtype": "float64", "varlength": True}]
+    up_b = [{"identifier": "b", "dtype": "uint8"}, {"identifier": "c", "dtype": "str"}]
+    for sh in ([], ["a"], ["b"], ["a", "b"]):
+        for ct in ("node", "edge"):
+            yield [C(sh), AP(0, up_a, ct), AP(1, up_b, "edge" if ct == "node" else "node", True), AP(0, up_b, ct)]
+        for how in ("deepcopy", "model_copy_deep", "copy", "model_copy", "zarr_roundtrip", "json_roundtrip"):
+            yield [C(sh), {"op": "copy", "i": 0, "how": how}, AP(1, up_a, "node"), AP(2, up_b, "edge"), AP(0, up_a, "edge")]
+        yield [C(sh), {"op": "update_axes", "i": 0, "lists": {"names": ["x"]}}, AP(1, up_a, "node"),
+               {"op": "create_or_update", "i": 0, "directed": False, "axes": None, "inst": False}, AP(3, up_a + up_b, "edge")]
+        # the same dictionaries without instances (kwargs): pydantic builds separate instances, nothing is shared
+        yield [C(sh, "kwargs"), AP(0, up_a, "node")]
+    # sharing created by an assignment: the edge dictionary is given the node dictionary's own instance
+    base = {"op": "construct", "via": "instances", "kw": copy.deepcopy(kw)}
+    for fld in ("node_props_metadata", "edge_props_metadata"):
+        for sh in (["a"], ["a", "b"], ["zz"]):
+            for inst in (False, True):
+                yield [copy.deepcopy(base),
+                       {"op": "assign", "i": 0, "field": fld, "v": {"a": dict(pa), "b": dict(pb)}, "inst": inst, "sh": sh},
+                       AP(0, up_a, "node"), AP(0, up_b, "edge"),
+                       {"op": "assign", "i": 0, "field": fld, "v": {"a": dict(pa)}, "inst": inst},       # sharing ends
+                       AP(0, up_a, "edge")]
+    # a shared instance and a rejected assignment: nothing changes; then an accepted one
+    yield [C(["a", "b"]),
+           {"op": "assign", "i": 0, "field": "node_props_metadata", "v": {"a": dict(pb)}, "inst": True, "sh": ["a"]},
+           {"op": "assign", "i": 0, "field": "edge_props_metadata", "v": {"a": dict(pa), "q": {"identifier": "q", "dtype": "i4,,"}}, "inst": False, "sh": ["a"]},
+           AP(0, up_a, "node")]
+
+
 def generate(rng: random.Random, tier: str):
     for ops in directed_scenarios():
         yield {"kind": "run", "block": "scenario", "ops": copy.deepcopy(ops)}
+    for ops in sharing_scenarios():
+        yield {"kind": "run", "block": "sharing", "ops": copy.deepcopy(ops)}
     yield from exhaustive_small_blocks()
     yield from bool_block()
     yield from dtype_random_block(rng, tier)
@@ -823,9 +877,31 @@ def _instances(field, v):
     return v
 
 
-def _construct(via, kw):
+def _share_construct(kw, sh):
+    """Instances for a construction in which, for every key of sh present in both property dictionaries (as
+    well-shaped dicts), ONE PropMetadata instance is passed in both.  Returns (kwargs, keys actually shared)."""
+    from geff_spec import PropMetadata
+
+    out = {k: _instances(k, v) for k, v in kw.items()}
+    done = []
+    nd, ed = out.get("node_props_metadata"), out.get("edge_props_metadata")
+    if isinstance(nd, dict) and isinstance(ed, dict):
+        for k in sh:
+            if isinstance(nd.get(k), PropMetadata) and isinstance(ed.get(k), PropMetadata):
+                ed[k] = nd[k]
+                done.append(k)
+    return out, done
+
+
+def _construct(via, kw, sh=None, st=None):
     import zarr
     from geff_spec import GeffMetadata
+
+    if sh and via == "instances" and isinstance(kw, dict):
+        kwargs, done = _share_construct(kw, sh)
+        if st is not None:
+            st["sh_eff"] = done
+        return GeffMetadata(**kwargs)
 
     if via == "kwargs":
         if not isinstance(kw, dict):
@@ -910,13 +986,30 @@ def run_impl(c):
         new = None
         try:
             if k == "construct":
-                new = _construct(o["via"], to_py(o["kw"]))
+                new = _construct(o["via"], to_py(o["kw"]), o.get("sh"), st)
             elif k == "assign":
                 v = to_py(o["v"])
                 if o.get("inst"):
                     v = _instances(o["field"], v)
+                if o.get("sh") and o["field"] in ("node_props_metadata", "edge_props_metadata") and isinstance(v, dict):
+                    # the caller passes, under a key of sh, the very instance the object holds under that key in its
+                    # OTHER property dictionary
+                    other = getattr(pool[idx], "edge_props_metadata" if o["field"] == "node_props_metadata" else "node_props_metadata")
+                    v_eff = dict(o["v"])
+                    done = []
+                    for kk in o["sh"]:
+                        if kk in v and kk in other:
+                            v[kk] = other[kk]
+                            v_eff[kk] = enc(other[kk].model_dump())
+                            done.append(kk)
+                    st["sh_eff"], st["v_eff"] = done, v_eff
                 setattr(pool[idx], o["field"], v)
             elif k == "copy":
+                how = o["how"]
+                if how in ("zarr_roundtrip", "json_roundtrip") and has_nonfinite(enc(pool[idx].model_dump())):
+                    how = "deepcopy"
+                st["copy_kind"] = {"deepcopy": "CDeep", "model_copy_deep": "CDeep", "copy": "CShallow", "model_copy": "CShallow",
+                                   "zarr_roundtrip": "CRebuild", "json_roundtrip": "CRebuild"}[how]
                 new = _copy(pool[idx], o["how"])
             elif k == "update_axes":
                 kw = _lists_kwargs(o["lists"], False)
@@ -957,21 +1050,23 @@ def run_impl(c):
 
 # ------------------------------------------------------------------ Coq terms
 def c_op(o, st) -> str:
+    """The operation as a term of MetaAlias.aop (PropMetadata instances explicit)."""
     k = o["op"]
     if k == "construct":
-        return f"(OConstruct {to_jv(o['kw'])})"
+        return f"(AConstruct {to_jv(o['kw'])} {clist(st.get('sh_eff') or [], cstr8)})"
     if k == "assign":
-        return f"(OAssign {cnat(st['idx'])} {FIELD_COQ[o['field']]} {to_jv(o['v'])})"
+        return (f"(AAssign {cnat(st['idx'])} {FIELD_COQ[o['field']]} {to_jv(st.get('v_eff', o['v']))} "
+                f"{clist(st.get('sh_eff') or [], cstr8)})")
     if k == "copy":
-        return f"(OCopy {cnat(st['idx'])})"
+        return f"(ACopy {cnat(st['idx'])} {st.get('copy_kind', 'CDeep')})"
     if k == "update_axes":
-        return f"(OUpdateAxes {cnat(st['idx'])} {c_lists(o['lists'])})"
+        return f"(AUpdateAxes {cnat(st['idx'])} {c_lists(o['lists'])})"
     if k == "create_or_update":
-        return f"(OCreateOrUpdate {copt(st['idx'], cnat)} {to_jv(o['directed'])} {to_jv(o['axes'])})"
+        return f"(ACreateOrUpdate {copt(st['idx'], cnat)} {to_jv(o['directed'])} {to_jv(o['axes'])})"
     if k == "add_props":
-        return f"(OAddProps {cnat(st['idx'])} {to_jv(o['props'])} {to_jv(o['ctype'])})"
+        return f"(AAddProps {cnat(st['idx'])} {to_jv(o['props'])} {to_jv(o['ctype'])})"
     if k == "axes_from_lists":
-        return f"(OAxesFromLists {c_lists(o['lists'])})"
+        return f"(AAxesFromLists {c_lists(o['lists'])})"
     raise HarnessError(k)
 
 
@@ -992,7 +1087,7 @@ def _coq_case(c, obs):
         ch = clist(st["changed"], lambda p: f"({cnat(p[0])}, {c_md(p[1])})")
         axes = copt(st["axes"], lambda l: clist(l, c_axis))
         sts.append(f"({out}, {ch}, {axes})")
-    return f"(IRun {cstr8(obs['gv'])} {clist(ops)}, ORun {clist(sts)})"
+    return f"(IRunA {cstr8(obs['gv'])} {clist(ops)}, ORun {clist(sts)})"
 
 
 # ------------------------------------------------------------------ oracle (from the property text)
